@@ -724,7 +724,15 @@ func (c *client) loopRead() {
 			return
 		}
 
-		req := <-c.processingReqs
+		// NOTE: The writer may have quit with the request in hand after it
+		// was written to the backend, then the request of this response will
+		// never show up.
+		var req *simpleRequest
+		select {
+		case req = <-c.processingReqs:
+		case <-c.quit:
+			return
+		}
 		c.handleResp(req, resp)
 	}
 }
